@@ -39,12 +39,16 @@ class Gen:
         if k < 0.55 and pool:
             return case_mix(r, r.choice(pool))
         if k < 0.65:
-            return "%s(%s)" % (r.choice(["low", "high", "LOW", "byte2"]), self.small_expr(depth - 1))
+            return "%s(%s)" % (r.choice(["low", "high", "LOW", "byte2", "byte3", "byte4", "lwrd", "hwrd", "High", "exp2", "log2", "page", "Lwrd"]), self.small_expr(depth - 1))
+        if k < 0.68:
+            return r.choice(["pc", "PC", "Pc", "pc+1", "pc-1"])
+        if k < 0.71:
+            return r.choice(["-", "~", "!"]) + self.small_expr(depth - 1)
         if k < 0.75:
             return "(%s)" % self.small_expr(depth - 1)
         if k < 0.8:
             return r.choice(["$1F", "0x10", "0b101", "017", "'A'"])
-        op = r.choice(["+", "-", "*", "&", "|", "<<", ">>", "^", "/", "%", "==", "<"])
+        op = r.choice(["+", "-", "*", "&", "|", "<<", ">>", "^", "/", "%", "==", "<", "!=", "<=", ">", ">=", "&&", "||"])
         sp = r.choice(["", " "])
         return "%s%s%s%s%s" % (self.small_expr(depth - 1), sp, op, sp, self.small_expr(depth - 1))
 
@@ -90,7 +94,18 @@ class Gen:
         if k == 14:
             return "%s %s, %s" % (m("movw"), r.choice(["r0", "r16", "r30"]), r.choice(["r2", "r24"]))
         if k == 15:
-            return "%s %s, %s" % (m(r.choice(["lpm", "elpm"])), self.reg(), r.choice(["Z", "Z+"]))
+            kk = r.randrange(6)
+            if kk == 0:
+                return "%s %s, %s" % (m(r.choice(["lpm", "elpm"])), self.reg(), r.choice(["Z", "Z+", "z"]))
+            if kk == 1:
+                return "%s %d, %s" % (m(r.choice(["brbs", "brbc"])), r.randrange(8), r.choice(self.labels + ["pc", "pc+2"]))
+            if kk == 2:
+                return "%s %d" % (m(r.choice(["bset", "bclr"])), r.randrange(8))
+            if kk == 3:
+                return "%s %s, %s" % (m(r.choice(["muls", "mulsu", "fmul", "fmuls", "fmulsu"])), r.choice(["r16", "r17", "r23"]), r.choice(["r16", "r20", "r23"]))
+            if kk == 4:
+                return "%s %s" % (m("ser"), self.reg(True))
+            return m(r.choice(["eijmp", "eicall", "elpm", "sez", "cln", "sev", "cls", "set", "cli"]))
         return m("nop")
 
     def data(self, seg):
@@ -189,6 +204,10 @@ def program(rng, size=12, device=None, conditionals=True, macros=True, faults=Fa
             lines.append("  %s %s, %s" % (case_mix(rng, rng.choice(mac)), rng.choice(REG_HIGH), g.small_expr()))
         elif k < 0.43:
             lines.append('.%s "%s"' % (rng.choice(["message", "warning"]), rng.choice(["hi", "m1", ""])))
+        elif k < 0.46:
+            # directives that are accepted and ignored, '#' spellings, flags
+            lines.append(rng.choice([".list", ".nolist", ".listmac", ".csegsize 8", ".overlap", ".nooverlap", "#pragma AVRPART ADMIN PART_NAME ATmega8",
+                                     ".pragma x", "#define F%d" % rng.randrange(3), "#define G%d 1" % rng.randrange(2), ".includepath \"inc\""]))
         else:
             lines.append(g.plain_line(seg))
     lines += [".endif"] * depth
